@@ -5,16 +5,13 @@ ledger sum over the assigned pods.
 -/
 namespace KoordVerif.C05
 
-/-- Σ over the assigned pods of their recorded request in dimension `d`, masked by the reserved dimensions -/
-def sumReq (m : Mask) : List Pod → Nat → Int
-  | [], _ => 0
-  | p :: t, d => (if m d then p.req d else 0) + sumReq m t d
-
 /-- the statement's ledger equation for one reservation -/
 def Exact (r : RInfo) : Prop := ∀ d, r.allocated d = sumReq r.names r.assigned d
 
 /-- side conditions: one record per pod uid, requests are not negative -/
-def PodsOK (ps : List Pod) : Prop := (ps.map (·.uid)).Nodup ∧ ∀ p ∈ ps, ∀ d, 0 ≤ p.req d
+def PodPre (p : Pod) : Prop := (∀ d, 0 ≤ p.req d) ∧ (p.empty = true → ∀ d, p.req d = 0)
+
+def PodsOK (ps : List Pod) : Prop := (ps.map (·.uid)).Nodup ∧ ∀ p ∈ ps, PodPre p
 
 def RGood (r : RInfo) : Prop := Exact r ∧ PodsOK r.assigned
 
@@ -148,5 +145,49 @@ theorem mem_idxAdd (ix : Idx) (n u : Nat) (p : Nat × Nat) : p ∈ idxAdd ix n u
 
 theorem mem_idxDel (ix : Idx) (n u : Nat) (p : Nat × Nat) : p ∈ idxDel ix n u ↔ p ∈ ix ∧ p ≠ (n, u) := by
   simp [idxDel]
+
+
+/-! ### histories -/
+
+inductive Op where
+  | rupd (o : RObj) | rupdx (o : RObj) | rdel (u n : Nat)
+  | eadd (o : RObj) | eupd (o : RObj) | edel (o : RObj)
+  | padd (ru : Nat) (ps : List Pod) | pdel (ru : Nat) (us : List Nat)
+  | pupd (ou nu : Nat) (po pn : Option Pod)
+  | hadd (p : HPod) | hupd (po pn : HPod) | hdel (p : HPod)
+
+def step (c : Cache) : Op → Cache
+  | .rupd o => updateReservation c o
+  | .rupdx o => updateReservationIfExists c o
+  | .rdel u n => deleteReservation c u n
+  | .eadd o => onAdd c o
+  | .eupd o => onUpdate c o
+  | .edel o => onDelete c o
+  | .padd ru ps => (addPods c ru ps).1
+  | .pdel ru us => deletePods c ru us
+  | .pupd ou nu po pn => updatePod c ou nu po pn
+  | .hadd p => podUpdate c none p
+  | .hupd po pn => podUpdate c (some po) pn
+  | .hdel p => podDelete c p
+
+def run (c : Cache) (ops : List Op) : Cache := ops.foldl step c
+
+/-- the object OnDelete hands to the cache -/
+def delObj (o : RObj) : RObj := if o.available then { o with phase := 4 } else o
+
+/-- `Admissible Pre c ops`: every op satisfies `Pre` in the state it is applied to -/
+def Admissible (Pre : Cache → Op → Prop) : Cache → List Op → Prop
+  | _, [] => True
+  | c, op :: t => Pre c op ∧ Admissible Pre (step c op) t
+
+theorem run_preserves (Pre : Cache → Op → Prop) (Inv : Cache → Prop)
+    (hstep : ∀ c op, Inv c → Pre c op → Inv (step c op)) :
+    ∀ (ops : List Op) (c : Cache), Inv c → Admissible Pre c ops → Inv (run c ops) := by
+  intro ops
+  induction ops with
+  | nil => intro c h _; exact h
+  | cons op t ih =>
+    intro c h ha
+    exact ih (step c op) (hstep c op h ha.1) ha.2
 
 end KoordVerif.C05
